@@ -35,6 +35,7 @@ type FlowOpts struct {
 	FaultFrom          int  // faults only from this step on (the budget otherwise drains on the first opportunities)
 	Linger             int  // faults continue for this many steps after the workload was issued
 	MuteBroker         bool // the broker consumes and never answers (a handshake that only Close or Disconnect can end)
+	InvalidArg         int  // permille of publisher iterations that first issue a request with an invalid topic
 	InWindow           int  // the broker's in-flight window: no new message while that many QoS 1/2 transactions are open (0: unlimited)
 	ReuseIDs           bool // the broker reuses packet identifiers as soon as their transaction is complete
 	LazyResend         bool // the broker postpones the retransmission of messages the application holds unacknowledged
@@ -589,6 +590,24 @@ func (f *Flow) pubTask(s *Sim, name string, n int) {
 		s.Pause("pub")
 		if s.dead {
 			return
+		}
+		if f.O.InvalidArg > 0 && w.Tape.Flip("badpub", f.O.InvalidArg) {
+			// a denied request in the middle of concurrent traffic: it
+			// leaves no trace (C09), also not in what the others send
+			bad := []string{"bad\x00topic", "", "bad\xc3"}[w.Tape.Draw("badkind", 3)]
+			var err error
+			switch w.Tape.Draw("badlevel", 3) {
+			case 0:
+				_, err = f.C.PublishAtLeastOnce([]byte("denied"), bad)
+			case 1:
+				_, err = f.C.PublishExactlyOnce([]byte("denied"), bad)
+			default:
+				err = f.C.Publish(nil, []byte("denied"), bad)
+			}
+			if !s.dead && (err == nil || !mqtt.IsDeny(err)) && !errors.Is(err, mqtt.ErrClosed) {
+				w.Violate("C09", "invalid-accepted", "concurrent", "a publish to the invalid topic %q returned %v, want an IsDeny error", bad, err)
+			}
+			w.Probe("denied_among_concurrent_requests")
 		}
 		topic := fmt.Sprintf("t/%s/%d/g%d", name, i, w.Gen)
 		if retries > 0 {
@@ -1248,7 +1267,10 @@ type Req struct {
 	AfterFailedAttempt bool // invoked while the reader idled after a failed connect attempt
 	Dead               bool // its process stopped before the call returned
 	pingWires          int  // PINGREQ packets on the wire when the call started
-	pongMet            int  // step at which a PINGRESP was handed over while this Ping had not submitted
+	relAtQuit          int  // releases of the task when its quit was closed
+	quitFlagged        bool
+	quitTime           time.Duration
+	pongMet            int // step at which a PINGRESP was handed over while this Ping had not submitted
 }
 
 func (r *Req) Returned() bool { return r.Ret != 0 }
@@ -1461,6 +1483,8 @@ func (f *Flow) quitActions() []Action {
 		if r.QuitK == quitLater && r.QuitAt == 0 && r.Ret == 0 && r.Invoke != 0 {
 			acts = append(acts, Action{Name: "close-quit", Weight: 2, Run: func() {
 				r.QuitAt = f.W.Steps
+				r.relAtQuit = f.S.Releases[r.Task]
+				r.quitTime = f.S.Now()
 				close(r.Quit)
 				f.W.Probe("quit_closed_during_request")
 				f.W.Ev("quit", r.Idx, "quit of request #%d closed", r.Idx)
